@@ -367,6 +367,10 @@ func canon(v reflect.Value) interface{} {
 			}
 			return map[string]interface{}{"x": hex.EncodeToString(v.Bytes())}
 		}
+		if v.IsNil() {
+			// a nil slice is reported as null, an empty array as []: not the same entry
+			return map[string]interface{}{"A": nil}
+		}
 		arr := []interface{}{}
 		for i := 0; i < v.Len(); i++ {
 			arr = append(arr, canon(v.Index(i)))
